@@ -57,10 +57,11 @@ FloatKinds == {"float", "float32"}
 WFAttr(a) ==
   \* (the payload attribute behind a path parameter may be optional or carry a default: the generated decoder still hands a
   \*  plain value to the payload constructor, the payload field is a pointer)
-  /\ (a.loc = "path" => a.mode \in Modes /\ a.kind \in {"int", "uint", "float", "bool", "string"} \cup WideKinds /\ a.nest \in {"direct", "alias", "whole"})
+  /\ (a.loc = "path" => a.mode \in Modes /\ a.kind \in {"int", "uint", "float", "bool", "string", "bytes"} \cup WideKinds /\ a.nest \in {"direct", "alias", "whole"})
   /\ (a.kind \in WideKinds => a.nest \in {"direct", "alias", "elem", "mapval", "whole"} /\ a.rule \in {"none", "min", "xmax"})
-  /\ (a.loc = "cookie" => a.nest \in {"direct", "alias"} /\ a.kind # "bytes")
-  /\ (a.loc \in {"query", "header"} => a.nest \in {"direct", "alias", "elem", "whole", "whole_elem"} \cup QueryMapNests /\ a.kind # "bytes")
+  \* (Bytes outside a body: the raw bytes are the text of the parameter / header / cookie - base64 only in JSON bodies)
+  /\ (a.loc = "cookie" => a.nest \in {"direct", "alias"})
+  /\ (a.loc \in {"query", "header"} => a.nest \in {"direct", "alias", "elem", "whole", "whole_elem"} \cup QueryMapNests)
   \* map-valued query parameters: qa1[key]=value; the whole payload as the query string (MapParams()): key=value
   /\ (a.nest \in QueryMapNests => a.loc \in {"query", "body"} /\ (a.nest \in {"mapval_elem", "mapparams"} => a.loc = "query" /\ a.kind \notin WideKinds \cup {"any"}))
   /\ (a.nest \in {"nested"} \cup Deep => a.loc = "body")
@@ -126,7 +127,11 @@ CanBeAbsent(a) == a.mode \in {"optional", "treq"} \/ (a.mode = "required" /\ a.n
                   \/ (a.mode = "default" /\ a.nest \in DefaultedContainerNests)       \* (a nil slice / map: the default stands in)
 \* an empty string cannot be a path segment, and neither can "nothing": the envelope does not send one (the caller of a
 \* method with a path parameter supplies it, whatever the payload type says)
-PayloadVals(a) == {v \in ValsOf(a) : ~(a.loc = "path" /\ v.s = "empty") /\ (v.s = "huge" => a.loc = "body")} \cup (IF CanBeAbsent(a) /\ a.nest \notin Whole /\ a.loc # "path" THEN {Absent} ELSE {})
+ParamBytesVals(a) == IF a.kind = "bytes" /\ a.loc # "body"
+                      THEN {w \in {V("bytes", k, sh, 1) : k \in {Lo - 1, Lo, 3, Hi, Hi + 1}, sh \in StrShapes \ {"plain"}} :
+                              (w.s \in {"pcthex", "space"} => w.n >= 3) /\ (w.s = "uni" => w.n >= 2)}          \* (n counts BYTES here: e-acute is two)
+                      ELSE {}
+PayloadVals(a) == {v \in ValsOf(a) \cup ParamBytesVals(a) : ~(a.loc = "path" /\ (v.s = "empty" \/ (v.cls = "bytes" /\ v.n = 0))) /\ (v.s = "huge" => a.loc = "body")} \cup (IF CanBeAbsent(a) /\ a.nest \notin Whole /\ a.loc # "path" THEN {Absent} ELSE {})
                   \* a defaulted list / map that the caller sets to EMPTY on purpose (not nil): whatever the rule
                   \cup (IF a.mode = "default" /\ a.nest \in DefaultedContainerNests THEN {V(a.kind, 3, "plain", 0)} ELSE {})
 \* what no generated encoder writes but any peer can send: the (last) object of a nested user type lacks its required inner
